@@ -35,18 +35,21 @@ import (
 )
 
 var (
-	seed    = flag.Int64("seed", 1, "seed")
-	nvec    = flag.Int("n", 2000, "number of vectors")
-	outDir  = flag.String("out", ".", "output directory")
-	doC     = flag.Bool("consts", false, "print Consts.v")
-	replay  = flag.String("replay", "", "vectors file (id<TAB>args) to re-run instead of generating")
-	port    = flag.Int("port", 34000, "port base for the in-process server")
-	engName = flag.String("engine", "mem", "storage engine: mem | pebble")
-	big     = flag.Bool("big", false, "include the vectors with ~5000 arguments")
-	quiet   = flag.Bool("quiet", true, "silence the server logs")
-	policy  = flag.String("policy", "local_deletion", "expiration policy of the namespace and of the simulated replicas: local_deletion | wait_compact")
-	useV2   = flag.Bool("v2", false, "live server with use_redis_v2 (raw command proposed, namespace cut at apply)")
-	avoid   = flag.String("avoid", "", "comma separated signatures of OPEN known findings whose inputs are not executed (they would take the harness down)")
+	seed      = flag.Int64("seed", 1, "seed")
+	nvec      = flag.Int("n", 2000, "number of vectors")
+	outDir    = flag.String("out", ".", "output directory")
+	doC       = flag.Bool("consts", false, "print Consts.v")
+	replay    = flag.String("replay", "", "vectors file (id<TAB>args) to re-run instead of generating")
+	port      = flag.Int("port", 34000, "port base for the in-process server")
+	engName   = flag.String("engine", "mem", "storage engine: mem | pebble")
+	big       = flag.Bool("big", false, "include the vectors with ~5000 arguments")
+	quiet     = flag.Bool("quiet", true, "silence the server logs")
+	policy    = flag.String("policy", "local_deletion", "expiration policy of the namespace and of the simulated replicas: local_deletion | wait_compact")
+	sweep     = flag.Int64("sweep", 0, "run the length sweep instead of random mutants: size constants of the write path up to this value, +-32 bytes")
+	sweepPart = flag.String("sweeppart", "0/1", "k/n: the k-th of n slices of the write commands for the length sweep")
+	sweepFull = flag.Bool("sweepfull", false, "length sweep: every constant also in the field/member and key positions")
+	useV2     = flag.Bool("v2", false, "live server with use_redis_v2 (raw command proposed, namespace cut at apply)")
+	avoid     = flag.String("avoid", "", "comma separated signatures of OPEN known findings whose inputs are not executed (they would take the harness down)")
 )
 
 var stdout = os.Stdout
@@ -127,7 +130,7 @@ func main() {
 				continue
 			}
 			ids = append(ids, p[0])
-			vecs = append(vecs, vector{args: hx.UnHL(p[1]), base: "replay", mut: "replay"})
+			vecs = append(vecs, vector{args: decL(p[1]), base: "replay", mut: "replay"})
 		}
 	} else {
 		// every template once unmutated, then mutants
@@ -139,6 +142,24 @@ func main() {
 			for _, t := range tp {
 				vecs = append(vecs, vector{args: bb(t), base: n, mut: "valid"})
 			}
+		}
+		if *sweep > 0 {
+			var spk, spn int
+			fmt.Sscanf(*sweepPart, "%d/%d", &spk, &spn)
+			sv := sweepVectors(names, func(n string) bool { ci := info[n]; return ci != nil && (ci.write || ci.mergewrite) }, *sweep, spk, spn, *sweepFull)
+			// deterministic order, large values interleaved with the clearing blocks below
+			for k, v := range sv {
+				vecs = append(vecs, v)
+				if (k+1)%400 == 0 {
+					for _, c := range maintenance {
+						vecs = append(vecs, vector{args: bb(c), base: c[0], mut: "maintenance"})
+					}
+					for _, c := range initState {
+						vecs = append(vecs, vector{args: bb(c), base: c[0], mut: "maintenance"})
+					}
+				}
+			}
+			*nvec = 0
 		}
 		for len(vecs) < *nvec {
 			vecs = append(vecs, genVector(r, names))
@@ -233,14 +254,15 @@ func main() {
 	}
 	ra, err1 := newSimSM("a", *engName, *policy)
 	rb, err2 := newSimSM("b", *engName, *policy)
-	if err1 != nil || err2 != nil {
-		fmt.Fprintln(stdout, "replicas:", err1, err2)
+	rc, err3 := newSimSM("c", *engName, *policy)
+	if err1 != nil || err2 != nil || err3 != nil {
+		fmt.Fprintln(stdout, "replicas:", err1, err2, err3)
 		os.Exit(2)
 	}
 	defer func() {
 		step("close")
 		done := make(chan struct{})
-		go func() { sand.close(); ra.close(); rb.close(); close(done) }()
+		go func() { sand.close(); ra.close(); rb.close(); rc.close(); close(done) }()
 		select {
 		case <-done:
 		case <-time.After(10 * time.Second): // a leaked engine lock: the process ends anyway
@@ -264,7 +286,7 @@ func main() {
 			continue // proposed as ZADD by the leader; not needed in the simulated replicas
 		}
 		t := nextTs()
-		for _, s := range []*simSM{sand, ra, rb} {
+		for _, s := range []*simSM{sand, ra, rb, rc} {
 			res := s.applyEntries([][]applyReq{{f}}, t)
 			if res.panicked || res.rsp[0] != "ok" {
 				fmt.Fprintln(stdout, "init command failed on", s.name, c, res)
@@ -282,56 +304,81 @@ func main() {
 	}
 	var queue []pend
 	pairFlushes := 0
+	nbSeq := 0
 	flushPair := func() {
 		if len(queue) == 0 {
 			return
 		}
 		step("pairflush:" + queue[len(queue)-1].id)
 		pairFlushes++
-		// split the queue into entries of 1..3 requests
-		var entries [][]applyReq
-		var entIDs [][]string
+		// Entries of 1..3 requests. Half of the queued requests are sandwiched between two VALID batchable
+		// writes on fresh keys (a SET before, an HMSET or SETEX after) in the same entry: whatever the
+		// request in the middle does, its neighbours must get their normal reply and effect.
+		type slot struct {
+			id  string // vector id, or "N<k>" for a neighbour
+			req applyReq
+		}
+		var entries [][]slot
 		for i := 0; i < len(queue); {
+			if r.Pick(2) == 0 {
+				nbSeq++
+				before := applyReq{dtype: node.RedisReq, args: bb([]string{"set", fmt.Sprintf("nb:a%d", nbSeq), "1"})}
+				var after applyReq
+				if r.Pick(2) == 0 {
+					after = applyReq{dtype: node.RedisReq, args: bb([]string{"hmset", fmt.Sprintf("nb:h%d", nbSeq), "f", "1", "g", "2"})}
+				} else {
+					after = applyReq{dtype: node.RedisReq, args: bb([]string{"setex", fmt.Sprintf("nb:e%d", nbSeq), "100000", "v"})}
+				}
+				entries = append(entries, []slot{{fmt.Sprintf("N%da", nbSeq), before}, {queue[i].id, queue[i].req}, {fmt.Sprintf("N%db", nbSeq), after}})
+				i++
+				continue
+			}
 			k := 1 + r.Pick(3)
 			if i+k > len(queue) {
 				k = len(queue) - i
 			}
-			var e []applyReq
-			var ei []string
+			var e []slot
 			for _, p := range queue[i : i+k] {
-				e = append(e, p.req)
-				ei = append(ei, p.id)
+				e = append(e, slot{p.id, p.req})
 			}
 			entries = append(entries, e)
-			entIDs = append(entIDs, ei)
 			i += k
 		}
-		t := nextTs()
-		resA := ra.applyEntries(entries, t)
+		var entA [][]applyReq
+		var flat []slot
+		for _, e := range entries {
+			var ea []applyReq
+			for _, sl := range e {
+				ea = append(ea, sl.req)
+				flat = append(flat, sl)
+			}
+			entA = append(entA, ea)
+		}
 		var allIDs []string
-		for _, e := range entIDs {
-			allIDs = append(allIDs, e...)
+		for _, sl := range flat {
+			allIDs = append(allIDs, sl.id)
 		}
 		idl := strings.Join(allIDs, ",")
+		t := nextTs()
+		resA := ra.applyEntries(entA, t)
 		if resA.panicked || resA.hung {
 			oo.Printf("P%d\tpair=panic ids=%s msg=%s\n", pairFlushes, idl, hx.H([]byte(resA.pmsg)))
 			flushAll()
 			if resA.hung {
 				oo.Printf("END\tvectors=0 hung=P%d\n", pairFlushes)
 				flushAll()
+				fmt.Fprintf(jf, "HUNG\tP%d\n", pairFlushes)
 				os.Exit(4)
 			}
-			// the replica is unusable afterwards: rebuild both from scratch is not possible without
-			// history; stop feeding the pair
 			queue = nil
 			ra.name = "dead"
 			return
 		}
-		// B gets the same entries without the requests that answered with an error
+		// B: the same entries without the requests that answered an error on A
 		var entB [][]applyReq
 		k := 0
 		nerr := 0
-		for _, e := range entries {
+		for _, e := range entA {
 			var eb []applyReq
 			for _, rq := range e {
 				if resA.rsp[k] == "ok" {
@@ -346,22 +393,59 @@ func main() {
 			}
 		}
 		resB := rb.applyEntries(entB, t)
+		// C: every request alone (its own entry, batch committed after each): what each request answers
+		// when nothing is batched around it
+		var rspC []string
+		panC := false
+		for _, sl := range flat {
+			rc1 := rc.applyEntries([][]applyReq{{sl.req}}, t)
+			if rc1.panicked || rc1.hung {
+				panC = true
+				break
+			}
+			rspC = append(rspC, rc1.rsp[0])
+		}
 		verdict := "eq"
 		detail := ""
-		if resB.panicked || resB.hung {
+		switch {
+		case resB.panicked || resB.hung:
 			verdict = "panicB"
-		} else {
+		case panC:
+			verdict = "panicC"
+		default:
 			for _, x := range resB.rsp {
 				if x != "ok" {
 					verdict = "replyB" // a request that succeeded on A fails on B
 				}
 			}
-			if d := diffDump(dumpStore(ra.st.RockDB), dumpStore(rb.st.RockDB)); len(d) > 0 {
-				verdict = "diverged"
-				detail = hx.H(d[0])
+			for i, sl := range flat {
+				if sl.id[0] == 'N' && resA.rsp[i] != "ok" {
+					verdict = "neighbour-error" // a valid write lost its reply to another request's error
+					detail = sl.id + ":" + hx.H([]byte(trunc(resA.etxt[i], 60)))
+					break
+				}
+			}
+			if verdict == "eq" {
+				for i := range flat {
+					if resA.rsp[i] != rspC[i] {
+						verdict = "batched-differs-from-solo" // reply class depends on what was batched around it
+						detail = flat[i].id + ":" + resA.rsp[i] + "/" + rspC[i]
+						break
+					}
+				}
+			}
+			if verdict == "eq" {
+				da := dumpStore(ra.st.RockDB)
+				if d := diffDump(da, dumpStore(rb.st.RockDB)); len(d) > 0 {
+					verdict = "diverged"
+					detail = hx.H(d[0])
+				} else if d := diffDump(da, dumpStore(rc.st.RockDB)); len(d) > 0 {
+					verdict = "divergedC"
+					detail = hx.H(d[0])
+				}
 			}
 		}
-		oo.Printf("P%d\tpair=%s ids=%s nreq=%d nerr=%d detail=%s rsp=%s\n", pairFlushes, verdict, idl, len(queue), nerr, detail, strings.Join(resA.rsp, ","))
+		oo.Printf("P%d\tpair=%s ids=%s nreq=%d nerr=%d detail=%s rsp=%s\n", pairFlushes, verdict, idl, len(flat), nerr, detail, strings.Join(resA.rsp, ","))
 		queue = nil
 	}
 	flushAt := 1 + r.Pick(6)
@@ -433,7 +517,7 @@ func main() {
 				continue
 			}
 		}
-		argsH := hx.HL(v.args)
+		argsH := encL(v.args)
 		vo.Printf("%s\t%s\t%s\t%s\n", id, argsH, v.base, v.mut)
 		if sig := dangerClass(name, v.args); sig != "" && strings.Contains(","+*avoid+",", ","+sig+",") {
 			oo.Printf("L%s\tkind=%s verdict=avoided reply=avoided sig=%s\n", id, kind, sig)
@@ -550,9 +634,25 @@ func main() {
 			} else {
 				rq = applyReq{dtype: node.RedisV2Req, args: v.args}
 			}
-			co.Printf("A%s.%d\tA\t%d\t%s\t%s\n", id, form, form, hx.HL(rq.args), floatTable(rq.args))
+			co.Printf("A%s.%d\tA\t%d\t%s\t%s\n", id, form, form, encL(rq.args), floatTable(rq.args))
 			sbefore := dumpStore(sand.st.RockDB)
-			res := sand.applyEntries([][]applyReq{{rq}}, nextTs())
+			ats := nextTs()
+			// the pre-check that lets a batchable write join the open batch (isValidBatchableWrite), on the
+			// command as ApplyRaftRequest sees it; B case for the model, and below: passed => no error
+			preOK := false
+			if form == 1 && len(rq.args) > 0 {
+				bn := strings.ToLower(string(rq.args[0]))
+				if rockredis.IsBatchableWrite(bn) {
+					preOK = node.VerifIsValidBatchableWrite(bn, rq.args, ats)
+					co.Printf("B%s\tB\t%d\t%s\n", id, ats/1000000000, encL(rq.args))
+					if preOK {
+						io.Printf("B%s\t1\n", id)
+					} else {
+						io.Printf("B%s\t0\n", id)
+					}
+				}
+			}
+			res := sand.applyEntries([][]applyReq{{rq}}, ats)
 			out := "nopanic"
 			rs := "none"
 			if res.panicked {
@@ -567,6 +667,11 @@ func main() {
 				etx = hx.H([]byte(trunc(res.etxt[0], 48)))
 			}
 			io.Printf("A%s.%d\t%s %s %s\n", id, form, out, rs, etx)
+			if rs == "err" && preOK {
+				// the batch pre-check promised that the handler's own argument checks pass: an error now would
+				// abort a shared batch and take the neighbours' writes and replies with it
+				oo.Printf("A%s.%d\tsandbox=precheck-passed-but-error verdict=%s err=%s\n", id, form, verdict, hx.H([]byte(trunc(res.etxt[0], 80))))
+			}
 			if rs == "err" {
 				// an erroring request must leave the committed state alone and nothing in the shared
 				// batch: the next successful write (health probe) must change its own keys only
